@@ -146,6 +146,10 @@ def dispatch_shape(ctx, RD, RW, RLIVE, only_live: bool = False, RLOCK=None):
                             rhs = raw.split(" in ", 1)[1] if " in " in raw else raw
                             if "self._handlers" in rhs:
                                 fresh.append(x.text)
+                            elif any(y.kind == "assign" and re.fullmatch(rf"\s*{re.escape(rhs.strip().split('[')[0].split('.')[0])}\s*(?::[^=]+)?=\s*self\._handlers\s*", y.raw or "") for y in p.evs + b.evs) and "[" in rhs:
+                                # the name is the registry itself under another name (`handlers = self._handlers`, the dict is never
+                                # re-bound): `handlers[watch]` reads the live entry when the test runs
+                                fresh.append(x.text)
                             else:
                                 nm = rhs.strip().split("[")[0].split(".")[0]
                                 bound_here = [y for y in b.evs if y.kind == "assign" and y.extra.get("name") == nm and "self._handlers" in (y.raw or "") and ".copy()" not in (y.raw or "") and not any(f + "(" in (y.raw or "") for f in SNAPSHOT_FUNCS)]
